@@ -117,14 +117,47 @@ func condTol(d float64) float64 {
 	return math.Min(2*earthR*8*u*math.Tan(x), 0.4)
 }
 
+// crossTol bounds the rounding error of the cross-track branch of
+// pointRectDistGeodeticRad, d = R*asin(cos(lat_q)*sin(dlon)), which is used
+// for the lower bound of every R-tree node and for the reported distance of an
+// extended object whenever the query point lies east or west of the box. Its
+// derivative with respect to the asin argument x is R/sqrt(1-x^2) = R/cos(d/R):
+// an argument off by c*u moves d by R*c*u*tan(d/R), unbounded towards a quarter
+// of the circumference (d -> pi/2*R = 10 007 543 m), where x rounds to exactly
+// 1 and the error saturates at R*(asin(1)-asin(1-c*u)) = R*sqrt(2*c*u). With
+// c = 8 ulps (deg->rad conversions, cos, sin, product) the cap is 0.27 m.
+// Seen: q = (-2e-7, 24.9999998), meridian -65: asin form 10007543.398010 m,
+// well-conditioned atan2 form 10007543.366560 m (3.1 cm too large), so a node
+// was popped 1.56 cm after a member of another node. The haversine used for
+// point items (2*asin(sqrt(h)), h = 0.5 here) is well conditioned at that
+// distance, which is why only order and extended-object checks need this term.
+func crossTol(d float64) float64 {
+	const u = 1.11e-16
+	const c = 8
+	limit := earthR * math.Sqrt(2*c*u)
+	return math.Min(earthR*c*u*math.Abs(math.Tan(d/earthR)), limit)
+}
+
 // tolPoint: reported vs reference distance of a point object.
 func tolPoint(d float64) float64 { return 1e-6 + 1e-9*d + condTol(d) }
 
 // tolExt: reported vs brute-force distance to the box of an extended object.
-func tolExt(d float64) float64 { return 1e-4 + 1e-8*d + condTol(d) }
+func tolExt(d float64) float64 { return 1e-4 + 1e-8*d + condTol(d) + crossTol(d) }
 
 // tolOrd: allowed inversion between consecutive reported distances.
-func tolOrd(d float64) float64 { return 1e-6 + 1e-12*d + condTol(d) }
+// A node is expanded when its lower bound is the smallest key in the queue; a
+// bound that is too large by crossTol lets members of other nodes overtake
+// its members by that much.
+func tolOrd(d float64) float64 { return 1e-6 + 1e-12*d + condTol(d) + crossTol(d) }
+
+// tolRank: comparison of the k smallest reference distances with those of the
+// results; an overtaken object (see tolOrd) can also drop out of the first k.
+func tolRank(d float64, ext bool) float64 {
+	if ext {
+		return tolExt(d)
+	}
+	return tolPoint(d) + crossTol(d)
+}
 
 func imin(a, b int) int {
 	if a < b {
